@@ -175,6 +175,13 @@ def validate_taxonomy_tree(
             "tree has no 'hierarchy'")
     hierarchy = taxonomy_tree['hierarchy']
 
+    # the levels are keys of the tree: a level name listed twice
+    # would make one dict stand for two levels
+    if len(set(hierarchy)) != len(hierarchy):
+        raise RuntimeError(
+            "tree['hierarchy'] lists a level more than once:\n"
+            f"{hierarchy}")
+
     expected_keys = set(hierarchy)
     expected_keys.add('hierarchy')
     bad_keys = {'metadata', 'name_mapper', 'hierarchy_mapper'}
